@@ -586,6 +586,11 @@ impl DiskIO {
         let data =
             self.read_sectors_sync(ALLOCATION_JOURNAL_START_BLOCK, ALLOCATION_JOURNAL_BLOCKS)?;
         let state = decode_allocation_journal(&data, total_sectors)?;
+        if state.generation == u64::MAX {
+            // No later journal image can follow this one: refuse it before a replay writes to
+            // the device, not afterwards when the journal cannot be cleared.
+            return Err(FeoxError::InvalidMetadata);
+        }
         self.journal_generation
             .store(state.generation, Ordering::Release);
         self.journal_slot.store(state.slot, Ordering::Release);
